@@ -10,6 +10,8 @@
 // failure only in `catch (...)`); the injected failure is a primitiv::Error,
 // as the CUDA allocator's CUDA_CALL raises.
 #include "common.h"
+#include <new>
+#include <stdexcept>
 #include <algorithm>
 #include <map>
 #include <memory>
@@ -35,6 +37,7 @@ const std::uintptr_t BASE = 0x100000;
 struct Env {
   std::vector<Call> calls;          // since the previous line
   std::uint64_t fail = 0;           // allocator calls that still have to throw
+  int fail_kind = 0;                // 0 primitiv::Error, 1 std::bad_alloc, 2 std::runtime_error
   bool reuse = true;
   std::set<std::uint64_t> freed;    // deleted addresses not handed out again
   std::uint64_t next = 0;           // next never-used ordinal
@@ -43,6 +46,10 @@ struct Env {
     if (fail > 0) {
       --fail;
       calls.push_back(Call{'A', size, true, true, 0});
+      // what real allocators throw: primitiv::Error (the CPU devices), std::bad_alloc, or another
+      // std::exception (cl::Error of the OpenCL backend); the pool's reaction must not depend on the type
+      if (fail_kind == 1) throw std::bad_alloc();
+      if (fail_kind == 2) throw std::runtime_error("injected allocation failure");
       PRIMITIV_THROW_ERROR("injected allocation failure");
     }
     std::uint64_t ord;
@@ -147,6 +154,9 @@ struct State {
         sp = pool.allocate(static_cast<std::size_t>(size), &as);
       } catch (const Error &) {
         return "err " + env.take_log(false) + " as=" + std::to_string(as) + tail;
+      } catch (const std::exception &) {
+        if (env.fail_kind == 0) throw;
+        return "err " + env.take_log(false) + " as=" + std::to_string(as) + tail;   // the allocator's own exception, passed on
       }
       std::string h = "null";
       if (sp) {
@@ -168,6 +178,11 @@ struct State {
       pools.erase(it);
       pool_order.erase(std::find(pool_order.begin(), pool_order.end(), w[1]));
       return "ok " + env.take_log(true);
+    }
+    if (op == "fail_kind" && w.size() == 2) {
+      if (w[1] == "error") env.fail_kind = 0; else if (w[1] == "bad_alloc") env.fail_kind = 1;
+      else if (w[1] == "runtime") env.fail_kind = 2; else throw BadOp();
+      return "ok";
     }
     if (op == "fail_next" && w.size() == 2) {
       env.fail = parse_u64(w[1]);
